@@ -16,7 +16,8 @@
 (***************************************************************************)
 EXTENDS Integers, Sequences, FiniteSets, TLC, Json
 
-CONSTANTS Shapes, Sizes   \* Sizes: the set of n to explore
+CONSTANTS Shapes, Sizes,  \* Sizes: the set of n to explore
+          HugeDeep, HugeChain   \* additional sizes for the nesting shapes / the chain shapes
 VARIABLES done
 Emit(v) == PrintT(<<"@@", ToJson(v)>>)
 
@@ -50,10 +51,37 @@ Result(s, n) ==
     [] s = "long-name"   -> 8                \* an identifier of n characters
     [] s = "bracket-level" -> 2              \* a long string with level n brackets holding "ab"
     [] s = "unpack"      -> n                \* select('#', table.unpack(t, 1, n)) for a table of n items
+    [] s = "unary-chain" -> IF n % 2 = 0 THEN 1 ELSE -1   \* return - - - ... 1 with n minus signs
+    [] s = "pow-chain"   -> 1                \* math.tointeger(1^1^...^1): n right-associative operators
+    [] s = "nest-call"   -> 1                \* id(id(id(...(1)))) with n nested calls
+    [] s = "nest-index"  -> 1                \* t[t[t[...[1]]]] with t = {1}
+    [] s = "call-suffix" -> 3                \* f()()()...() with f returning itself: n call suffixes, then compared with f
+    [] s = "index-suffix" -> 8               \* t.a.a.a....v with t.a = t
+    [] s = "method-suffix" -> 2              \* t:m():m()...v with m returning self
+    [] s = "and-chain"   -> 6                \* true and true and ... and 6
+    [] s = "elseif-chain" -> 9               \* n elseif branches that are not taken, then else return 9
     [] OTHER -> 0
+
+(* Programs that recurse without bound through a route that nests the implementation's own stack (a metamethod
+   called by an operator, a chain of __call metamethods that loops, a callback of a library function calling the
+   library function again).  They have no value: the only ordinary outcomes are an error ("stack overflow",
+   "chain too long") or a resource termination; in particular they must have one of these outcomes when NO
+   resource limit is set (div = TRUE: the check runs them both ways). *)
+RecShapes == {"rec-index", "rec-newindex", "rec-add", "rec-sub", "rec-mul", "rec-div", "rec-mod", "rec-pow", "rec-idiv", "rec-unm",
+              "rec-band", "rec-bor", "rec-bxor", "rec-shl", "rec-shr", "rec-bnot", "rec-concat", "rec-len", "rec-eq", "rec-lt", "rec-le",
+              "rec-call-self", "rec-call-pair", "rec-call-cycle3", "rec-index-self", "rec-newindex-self",
+              "rec-tostring", "rec-close", "rec-sort", "rec-gsub", "rec-pairs", "rec-xpcall-handler", "rec-load-reader",
+              "rec-index-in-coroutine", "rec-add-via-pcall"}
+
+(* shapes whose size is a nesting depth or the length of a chain of operators / suffixes: the parser and the
+   compiler are recursive, so these are also explored at sizes far beyond any sensible limit *)
+DeepShapes == {"nest-do", "nest-paren", "nest-table", "nest-func", "nest-if", "unary-chain", "pow-chain", "nest-call", "nest-index"}
+ChainShapes == {"concat-chain", "call-suffix", "index-suffix", "method-suffix", "and-chain", "elseif-chain"}
+SizesOf(s) == Sizes \cup (IF s \in DeepShapes THEN HugeDeep ELSE {}) \cup (IF s \in ChainShapes THEN HugeChain ELSE {})
 
 Init == done = FALSE
 Next == /\ ~done /\ done' = TRUE
-        /\ \A s \in Shapes : \A n \in Sizes : Emit([shape |-> s, n |-> n, result |-> Result(s, n)])
+        /\ \A s \in Shapes \ RecShapes : \A n \in SizesOf(s) : Emit([shape |-> s, n |-> n, result |-> Result(s, n), div |-> FALSE])
+        /\ \A s \in Shapes \cap RecShapes : Emit([shape |-> s, n |-> 0, result |-> 0, div |-> TRUE])
 Spec == Init /\ [][Next]_done
 =============================================================================
